@@ -53,7 +53,7 @@ BASE = dict(NTopics=1, NClients=2, Rounds=1, MaxEvents=1, MaxPolls=0, MaxTicks=0
 
 SIZES = {
     "quick": dict(sim=20, stress=20, race=4, stress_events=8),
-    "thorough": dict(sim=500, stress=250, race=24, stress_events=12),
+    "thorough": dict(sim=300, stress=200, race=24, stress_events=12),
 }
 
 
@@ -658,7 +658,64 @@ def sub_selftest(ctx):
 SUBCHECKS = [sub_design, sub_deviations, sub_indexer, sub_simulate, sub_stress, sub_selftest]
 
 
+
+# ----------------------------------------------------------------------------------------------
+# clauses (b) and (c), appended by the coordinator: block execution of the real application
+# ----------------------------------------------------------------------------------------------
+FOCUS_BC = ["EndPanic", "Outside", "Admit", "TxIndex", "Cumulative", "Seq", "FeeMarket"]
+
+
+def sub_blocks(ctx):
+    """(b) Begin/EndBlock never fail; (c) a failure inside one transaction (consensus error, handler panic through the destroy
+    guard / engine failure, block gas exhaustion, rejection) never alters the results of the others: EthTx histories of the real
+    application validated by TraceEthTx.tla - every other transaction's result must be exactly what the specification computes
+    from the block WITHOUT giving the failed one any effect beyond its admission effects.  Plus: garbage transaction bytes and
+    invalid transactions through FinalizeBlock on several replicas (no replica may panic), and the real fee-market EndBlock on the
+    boundary grid of consensus parameters (max gas -1, 0, 1, ...): a panic is a violation."""
+    import checks_ethtx
+    import checks_fee
+    import fm_samples
+    v, w, tier, seed = ctx["v"], ctx["w"], ctx["tier"], ctx["seed"]
+    vlib.build("vh")
+    sz = dict(traces=30, blocks=8) if tier == "quick" else dict(traces=600, blocks=10)
+    before = len(v.violations)
+    cov, _ = checks_ethtx.ethtx_binding(v, ctx["pid"], w, FOCUS_BC, sz, seed, corrupt_fn=None, tag="bc")
+    failing = sum(n for k, n in cov.items() if k in ("eth.core", "eth.panic", "eth.blockgas", "eth.ante", "eth.dropped", "cosmos.msgfail", "cosmos.ante"))
+    ctx["classes"].update({"blocks." + k: n for k, n in cov.items()})
+    ctx["evaluations"] += sz["traces"]
+    ctx["traces_ok"] += sz["traces"] - (len(v.violations) - before)
+    if failing == 0:
+        raise Infra("clause (c): no failing transaction in the generated histories")
+    log("clauses (b)/(c): %d block histories, %d failing transactions among them (classes %s), EndBlock never panicked" % (
+        sz["traces"], failing, {k: n for k, n in cov.items() if k.startswith("eth.")}))
+    # EndBlock of the fee market over valid consensus parameters and reachable base fees
+    vlib.build("vh_fm")
+    d = w.sub("fm")
+    sp = os.path.join(d, "samples.ndjson")
+    vlib.vh(["-seed", str(seed), "-n", "50" if tier == "quick" else "2000", "-out", sp], cmd="vh_fm")
+    samples = fm_samples.load(sp)
+    P256 = 2 ** 256
+    bad = [s for s in samples if s["r"] == "panic" and int(s["b"]) < P256 - P256 // 8]
+    for i, s in enumerate(bad[:3]):
+        rp = vlib.save_replay(ctx["pid"], "endblock_panic_%d" % i, [([json.dumps(s)], "samples.ndjson")], "the real fee-market EndBlock panicked on valid consensus parameters")
+        v.violation("EndBlock/fee-market-panic", rp, json.dumps(s)[:300])
+    ctx["evaluations"] += len(samples)
+    ctx["classes"]["endblock.evaluations"] = len(samples)
+    ctx["classes"]["endblock.zero-gas-target"] = sum(1 for s in samples if s["maxGas"] in ("0", "1"))
+
+
+SUBCHECKS.append(sub_blocks)
+
+
 def do_replay(pid, w, replay):
+    if os.path.exists(os.path.join(replay, "programs.json")):
+        import checks_ethtx
+        r = checks_ethtx.validate_dir_copy(w, replay, FOCUS_BC)
+        if r["err"]:
+            log("VIOLATION property=%s replay=%s" % (pid, replay))
+            return 1
+        log("replay: accepted")
+        return 0
     with open(os.path.join(replay, "case.json")) as f:
         case = json.load(f)
     binp = vlib.build("vh_conc")
